@@ -37,3 +37,8 @@ Proof. exact tie_multi_json. Qed.
 (* the rank comparison of main() as it reads now (T1c translation) is the model's merge, for all statuses of the ranked list *)
 Theorem c08_tie_rank_update : forall ret w, In ret ranked_return_codes -> In w ranked_return_codes -> merge ret w = src_rank_update ret w.
 Proof. exact tie_rank_update. Qed.
+From VModel Require Import Rating.
+From VProofs Require Import RatingProofs.
+(* no algorithm name shown in a report contains a line feed, carriage return or escape: a peer cannot forge the delimiter line or a `(gen) target:` line of another block *)
+Theorem c08_shown_names_no_control : forall s, ~ In (ascii_of_nat 10) (chars (display s)) /\ ~ In (ascii_of_nat 13) (chars (display s)) /\ ~ In (ascii_of_nat 27) (chars (display s)).
+Proof. exact display_no_newline. Qed.
